@@ -267,5 +267,32 @@ pub fn miri_cases() {
     }
     let crowded = Board::from_str("k7/8/PPPPPPPP/8/PPPPPPPP/8/PPPPPPPP/7K w - - 0 1");
     assert!(crowded.is_err());
+    // removals, null move, SAN and the game protocol on one position (unchecked indexing everywhere)
+    {
+        let b = Board::from_str("r3k2r/p1ppqpb1/bn2pnp1/3PN3/1p2P3/2N2Q1p/PPPBBPPP/R3K2R w KQkq - 0 1").expect("accepted");
+        let legal: Vec<ChessMove> = MoveGen::new_legal(&b).collect();
+        let mut it = MoveGen::new_legal(&b);
+        assert!(it.remove_move(legal[0]));
+        it.remove_mask(*b.color_combined(!b.side_to_move()));
+        let left = it.len(); assert_eq!(it.count(), left);
+        total += left;
+        if let Some(nb) = b.null_move() { total += MoveGen::new_legal(&nb).len(); }
+        for t in ["O-O", "O-O-O", "Nxd7", "dxe6", "Qxf6", "zz", "\u{e9}"].iter() { if let Ok(m) = ChessMove::from_san(&b, t) { assert!(b.legal(m)); total += 1; } }
+        let mut g = Game::new_with_board(b);
+        assert!(g.make_move(legal[1])); assert!(g.offer_draw(Color::Black)); assert!(g.accept_draw()); assert!(!g.make_move(legal[2]));
+        total += g.actions().len();
+    }
+    // CacheTable: smallest and ordinary sizes, extreme hashes, colliding hashes, conditional writes
+    for size in [1usize, 2, 1024].iter() {
+        let mut t = CacheTable::<u64>::new(*size, 7);
+        for (k, h) in [0u64, 1, u64::MAX, u64::MAX - 1, *size as u64, (*size as u64) * 3 + 1, 0x8000_0000_0000_0000].iter().enumerate() {
+            t.add(*h, k as u64);
+            assert_eq!(t.get(*h), Some(k as u64));
+            t.replace_if(*h, 99, |x| x == 1000);
+            assert_eq!(t.get(*h), Some(k as u64));
+            t.replace_if(h ^ (*size as u64), 5, |_| true);
+            total += t.get(*h).is_some() as usize;
+        }
+    }
     println!("MIRI-OK {}", total);
 }
